@@ -101,4 +101,26 @@ theorem instantiate_core {m : InstMsg} {s : State} (h : instantiate m = .ok s) :
   obtain ⟨_, _, _, _, _, _, rfl⟩ := h
   rfl
 
+/-- In every reachable state (any history, blocks in any order) a proposal stored Open and not expired at a
+block is reported Open at that block. -/
+theorem reachable_openOk {fuel : Nat} {w : World} (hr : Reachable fuel w) :
+    AllP (fun _ p => ∀ b, OpenOk b p) w.ms.core := by
+  obtain ⟨m, s, self, bank, sink, ops, hi, rfl⟩ := hr
+  have := run_state_inv (fun s => Inv s ∧ AllP (fun _ p => ∀ b, OpenOk b p) s.core)
+    (fun blk s snd m s' out ⟨hi, ha⟩ he =>
+      ⟨execute_inv hi he, allP_step hi.wf (fun _ _ _ hold hs => openOk_all_step hold hs) ha (execute_coreStep he)⟩)
+    fuel ops (World.init s self bank sink) ⟨instantiate_inv hi, by
+      show AllP _ s.core
+      rw [instantiate_core hi]; exact allP_empty _⟩
+  exact this.2
+
+/-- a further history of a reachable world leads to a reachable world -/
+theorem Reachable.extend {fuel : Nat} {w0 w : World} {b1 b : Block} (hr : Reachable fuel w0)
+    (hf : ReachableFrom fuel w0 b1 w b) : Reachable fuel w := by
+  induction hf with
+  | refl => exact hr
+  | @step w b op _ _ ih =>
+    obtain ⟨m, s, self, bank, sink, ops, hi, rfl⟩ := ih
+    exact ⟨m, s, self, bank, sink, ops ++ [op], hi, by simp [run, List.foldl_append]⟩
+
 end CwPlus.Cw3Fixed
